@@ -202,6 +202,10 @@ def runBurst (_prop : String) (_f : List String) (obsS : String) : Verdict :=
   if obsS == "ok" then ⟨true, "ok", "ok", none, ["burst"], false⟩
   else ⟨true, obsS, obsS, some ("C10", "concurrent producers against a blocked wrapped sink: " ++ obsS), ["burst"], false⟩
 
+def runDropRace (_prop : String) (_f : List String) (obsS : String) : Verdict :=
+  if obsS == "ok" then ⟨true, "ok", "ok", none, ["drop-race"], false⟩
+  else ⟨true, obsS, obsS, some ("C09+C08", "concurrent drops of the last handles: " ++ obsS), ["drop-race"], false⟩
+
 def runLatency (_prop : String) (_f : List String) (obsS : String) : Verdict :=
   if obsS == "ok" then ⟨true, "ok", "ok", none, ["latency"], false⟩
   else ⟨true, obsS, obsS, some ("C10", "emit did not return promptly: " ++ obsS), ["latency"], false⟩
